@@ -641,12 +641,18 @@ func (vfs *MemFS) OpenFile(name string, flag int, perm fs.FileMode) (avfs.File, 
 		c.mu.Lock()
 		defer c.mu.Unlock()
 
-		if !c.checkPermission(om, vfs.User()) {
-			return (*MemFile)(nil), &fs.PathError{Op: op, Path: name, Err: vfs.err.PermDenied}
-		}
-
 		if om&avfs.OpenCreateExcl != 0 {
 			return (*MemFile)(nil), &fs.PathError{Op: op, Path: name, Err: vfs.err.FileExists}
+		}
+
+		// an existing file is opened with the permissions of its access mode; truncating it needs write permission.
+		pm := fom
+		if om&avfs.OpenTruncate != 0 {
+			pm |= avfs.OpenWrite
+		}
+
+		if !c.checkPermission(pm, vfs.User()) {
+			return (*MemFile)(nil), &fs.PathError{Op: op, Path: name, Err: vfs.err.PermDenied}
 		}
 
 		if om&avfs.OpenTruncate != 0 {
